@@ -74,14 +74,14 @@ func (p streamPart) bytes() (out []byte, genbank bool) {
 // material is the concrete stream of a scenario with what the oracles need to
 // know about it.
 type material struct {
-	data     []byte
-	bounds   []int // record boundaries b0=0 < b1 < ... (ends of parts)
-	genbank  bool  // every part is a GenBank record
+	data        []byte
+	bounds      []int  // record boundaries b0=0 < b1 < ... (ends of parts)
+	genbank     bool   // every part is a GenBank record
 	emptyDBLink string // an entry of a DBLINK field was left without a value (which form), and nothing else was edited
-	t4       bool  // only length-consistency edits were applied
-	declared int   // declared LOCUS length of the first record after edits (t4)
-	actual   int   // residues in its ORIGIN block after edits (t4)
-	edited   bool
+	t4          bool   // only length-consistency edits were applied
+	declared    int    // declared LOCUS length of the first record after edits (t4)
+	actual      int    // residues in its ORIGIN block after edits (t4)
+	edited      bool
 }
 
 func splitLines(b []byte) []string { return strings.SplitAfter(string(b), "\n") }
@@ -844,7 +844,7 @@ func grammarNoise(r *core.RNG) string {
 
 // ---- scaling (T7) ----
 
-var scalingShapes = []string{"comment-lines", "definition-lines", "features", "qualifiers", "qualifier-lines", "origin", "records", "fasta-lines", "fasta-records", "dblink", "references", "keywords", "extra-fields", "unknown-lines", "location-parts", "literal-lines", "origin-crlf", "fasta-long-line", "taxonomy-lines", "contig-parts"}
+var scalingShapes = []string{"comment-lines", "definition-lines", "features", "qualifiers", "qualifier-lines", "origin", "records", "fasta-lines", "fasta-records", "dblink", "references", "keywords", "extra-fields", "unknown-lines", "location-parts", "literal-lines", "origin-crlf", "fasta-long-line", "taxonomy-lines", "contig-parts", "contig-no-colon-lines", "distinct-qualifier-names", "locus-blank-run"}
 
 // scaledStream builds a well-formed stream in which one part has n units.
 func scaledStream(shape string, n int) []byte {
@@ -861,6 +861,15 @@ func scaledStream(shape string, n int) []byte {
 		return o.String()
 	}
 	head := func(length int) {
+		if shape == "locus-blank-run" {
+			// the run of blanks behind LOCUS sets the indent of every field;
+			// the short lines that follow are skipped one by one
+			fmt.Fprintf(&b, "LOCUS%s%-17s %10d bp    DNA     linear   SYN 01-JAN-2000\n", strings.Repeat(" ", 7+20*n), "SCALE", length)
+			for i := 0; i < 10*n; i++ {
+				b.WriteString("x\n")
+			}
+			return
+		}
 		fmt.Fprintf(&b, "LOCUS       %-17s %10d bp    DNA     linear   SYN 01-JAN-2000\n", "SCALE", length)
 	}
 	switch shape {
@@ -932,6 +941,11 @@ func scaledStream(shape string, n int) []byte {
 		for i := 0; i < n; i++ {
 			b.WriteString("PROJECT     value\n")
 		}
+	case "contig-no-colon-lines":
+		// lines that look like the start of a CONTIG field and are none
+		for i := 0; i < n; i++ {
+			b.WriteString("CONTIG      join(\n")
+		}
 	case "taxonomy-lines":
 		b.WriteString("SOURCE      scaled organism\n  ORGANISM  scaled organism\n")
 		for i := 0; i < n; i++ {
@@ -948,6 +962,11 @@ func scaledStream(shape string, n int) []byte {
 	case "features":
 		for i := 0; i < n; i++ {
 			fmt.Fprintf(&b, "     gene            %d..%d\n                     /gene=\"g%d\"\n", i%50+1, i%50+5, i)
+		}
+	case "distinct-qualifier-names":
+		b.WriteString("     gene            1..10\n")
+		for i := 0; i < n; i++ {
+			fmt.Fprintf(&b, "                     /scaled_name_%d=\"v\"\n", i)
 		}
 	case "qualifiers":
 		b.WriteString("     gene            1..10\n")
@@ -1027,7 +1046,9 @@ func (x *c07Run) runScaling(sc *c07Scenario) {
 		x.violate(sc, "panic", panicSite(r1.Panic+r2.Panic), "scanner panicked on a scaled stream: "+firstLine(r1.Panic+r2.Panic))
 		return
 	}
-	if r1.Err != nil || r2.Err != nil || len(r1.Seqs) == 0 {
+	if hostileShapes[sc.Shape] {
+		// a shape that is rejected by design: what it costs to reject it is the point
+	} else if r1.Err != nil || r2.Err != nil || len(r1.Seqs) == 0 {
 		x.res.Harness = fmt.Sprintf("c07 scaling: the %s stream is not well-formed: %v / %v", sc.Shape, r1.Err, r2.Err)
 		return
 	}
@@ -1120,10 +1141,13 @@ func (x *c07Run) runTimeScaling(sc *c07Scenario) {
 // (value: the interpreter) instead of the stream scanner.
 var stringShapes = map[string]string{
 	"str-join-flat": "AsLocation", "str-join-nested": "AsLocation", "str-complement-nested": "AsLocation", "str-order-flat": "AsLocation",
-	"str-selector-slashes": "Selector", "str-selector-segments": "Selector", "str-locator-segments": "AsLocator", "str-open-parens": "AsLocation",
+	"str-selector-slashes": "Selector", "str-selector-segments": "Selector", "str-locator-segments": "AsLocator", "str-open-parens": "AsLocation", "str-join-complements": "AsLocation",
 }
 
-var stringShapeNames = []string{"str-join-flat", "str-join-nested", "str-complement-nested", "str-order-flat", "str-selector-slashes", "str-selector-segments", "str-locator-segments", "str-open-parens"}
+// hostileShapes are scaled streams that the scanner rejects.
+var hostileShapes = map[string]bool{"locus-blank-run": true}
+
+var stringShapeNames = []string{"str-join-flat", "str-join-nested", "str-complement-nested", "str-order-flat", "str-selector-slashes", "str-selector-segments", "str-locator-segments", "str-open-parens", "str-join-complements"}
 
 // scaledString builds an interpreter string with n units of one shape.
 func scaledString(shape string, n int) string {
@@ -1136,6 +1160,15 @@ func scaledString(shape string, n int) string {
 				b.WriteByte(',')
 			}
 			fmt.Fprintf(&b, "%d..%d", 3*i+1, 3*i+2)
+		}
+		b.WriteByte(')')
+	case "str-join-complements":
+		b.WriteString("join(")
+		for i := 0; i < n; i++ {
+			if i > 0 {
+				b.WriteByte(',')
+			}
+			fmt.Fprintf(&b, "complement(%d..%d)", 3*i+1, 3*i+2)
 		}
 		b.WriteByte(')')
 	case "str-join-nested":
